@@ -50,6 +50,7 @@ EXTRA = {
             ("SafeC.Conv.Libc.mbsLoop_valid", "SafeC.Proofs.ConvMbsLoop", "lemma", "loop invariant of glibc's mbsrtowcs window loop on a valid terminated string, every limit and genuine entry state: = character-by-character decoding"),
             ("SafeC.Conv.Libc.wcsrtombs_valid", "SafeC.Proofs.ConvWcs", "lemma", "wcsrtombs model on a valid terminated wide string = encodeAll limited to the whole characters that fit"),
             ("SafeC.Conv.Libc.mbs_query_valid", "SafeC.Proofs.ConvQuery", "lemma", "mbsrtowcs(NULL, ...) on ANY terminated source: no illegal sequence reported => the source is the encoding of some ws and the count is |ws|"),
+            ("SafeC.Conv.Libc.mbs_query_valid_st", "SafeC.Proofs.ConvQuerySt", "lemma", "the same entered with any genuine (incomplete-sequence) conversion state: ps ++ source valid, ps a proper prefix of the first character"),
             ("SafeC.Conv.Libc.wcs_query_valid", "SafeC.Proofs.ConvQuery", "lemma", "wcsrtombs(NULL, ...) on ANY terminated wide source: no illegal character reported => every character encodable and the count is the byte length")],
     "C16": [("SafeC.Sort.cycleGo_perm", "SafeC.Proofs.SortRel", "lemma", "the element moves of cycle() (tmp = a[ar0]; a[ar_i] = a[ar_i+1]; a[ar_last] = tmp), ANY position list incl. repeated positions: result is a permutation"),
             ("SafeC.Sort.smooth_rel", "SafeC.Proofs.SortRel", "lemma", "the whole smoothsort (main loop, final trinkle, dismantling loop), any bit vector/pshift/table state, any comparator: permutation + logged comparisons in range with the caller's ctx"),
